@@ -266,7 +266,8 @@ pub fn check(sc: &C14Sc, out: &NetOutcome, rep: &mut RunReport) {
         // closing means letting go of the socket, not just ending the server's own direction: a server that
         // keeps reading from a half-closed connection for as long as the client likes has not closed it
         match c.released_ns {
-            Some(t) if t <= acc + cfg.timeout_ns => {}
+            // (one second of grace: ending the own direction at the deadline and dropping the socket a moment later is fine)
+            Some(t) if t <= acc + cfg.timeout_ns + secs(1) => {}
             other => rep.violate(
                 "released_within_timeout",
                 format!("client {i} ({role:?}) admitted at {acc} ns, timeout {} ns, server end shut down at {:?} but let go of only at {:?}", cfg.timeout_ns, c.closed_ns, other),
